@@ -346,10 +346,12 @@ impl Interval {
 
     /// Take the 2's complement of values in the interval.
     pub fn int_2_comp(self) -> Self {
-        if self
-            .start
-            .checked_sgt(&Bitvector::signed_min_value(self.bytesize().into()))
-            .unwrap()
+        // For a constant the result is the constant of the (wrapping) operation, i.e. `-MIN == MIN`.
+        if self.start == self.end
+            || self
+                .start
+                .checked_sgt(&Bitvector::signed_min_value(self.bytesize().into()))
+                .unwrap()
         {
             Interval {
                 start: -self.end,
@@ -374,6 +376,10 @@ impl Interval {
     /// Compute the interval of possible results
     /// if one adds a value from `self` to a value from `rhs`.
     pub fn add(&self, rhs: &Interval) -> Interval {
+        if self.start == self.end && rhs.start == rhs.end {
+            // The sum of two constants is a constant, even if the addition overflows.
+            return (&self.start + &rhs.start).into();
+        }
         if let (Some(start), Some(end)) = (
             self.start.signed_add_overflow_checked(&rhs.start),
             self.end.signed_add_overflow_checked(&rhs.end),
@@ -391,6 +397,10 @@ impl Interval {
     /// Compute the interval of possible results
     /// if one subtracts a value in `rhs` from a value in `self`.
     pub fn sub(&self, rhs: &Interval) -> Interval {
+        if self.start == self.end && rhs.start == rhs.end {
+            // The difference of two constants is a constant, even if the subtraction overflows.
+            return (&self.start - &rhs.start).into();
+        }
         if let (Some(start), Some(end)) = (
             self.start.signed_sub_overflow_checked(&rhs.end),
             self.end.signed_sub_overflow_checked(&rhs.start),
@@ -410,6 +420,10 @@ impl Interval {
     pub fn signed_mul(&self, rhs: &Interval) -> Interval {
         if self.bytesize().as_bit_length() > 64 {
             return Interval::new_top(self.bytesize());
+        }
+        if self.start == self.end && rhs.start == rhs.end {
+            // The product of two constants is a constant, even if the multiplication overflows.
+            return (&self.start * &rhs.start).into();
         }
         let val1 = self
             .start
